@@ -63,7 +63,7 @@ def grid(tier: str) -> List[Dict[str, Any]]:
     pts = []
     offsets = OFFSETS if tier == "quick" else sorted(set(OFFSETS) | set(range(1, 1300, 13)))
     modes = ["unregister", "unregister_all", "async_close", "sync_close"]
-    seconds = [None, -300, 60]
+    seconds = [None, -300, -50, 60]  # -50: an answer of the ordinary aggregation queue is pending at the withdrawal too
     jit = [0.0, 0.5, 1.0]
     for kind, d, j, shape, mode, second in itertools.product(KINDS, offsets, jit, SHAPES, modes, seconds):
         if tier == "quick" and mode in ("async_close", "sync_close") and (second is not None or d not in (21, 250, 499, 1199)):
